@@ -59,6 +59,12 @@ class C07(core.Prop):
                 out.append({'n': n, 'edges': [list(e) for e in edges], 'perm': list(p), 'stride': 1})
             if tier == 'thorough' and n <= 4:
                 out.append({'n': n, 'edges': [list(e) for e in edges], 'perm': list(reversed(range(n))), 'stride': 4})
+        if tier == 'quick':
+            # a node that closes one ring and opens another (two triangles sharing a node); every rotation of the keys
+            bow = [[0, 1], [0, 2], [1, 2], [2, 3], [2, 4], [3, 4]]
+            for r in range(5):
+                out.append({'n': 5, 'edges': bow, 'perm': [(i + r) % 5 for i in range(5)], 'stride': 1})
+            out.append({'n': 5, 'edges': bow, 'perm': [4, 3, 2, 1, 0], 'stride': 1})
         if tier == 'thorough':
             # many ring closures: K_{2,7}-like graph forces > 9 simultaneously open markers
             n = 9
